@@ -11,6 +11,7 @@ import (
 	"fmt"
 	"io"
 	"os"
+	"path/filepath"
 	"strconv"
 	"strings"
 	"syscall"
@@ -58,7 +59,80 @@ func cstr(b []byte) []byte {
 	return b
 }
 
+// article files made by real posts accumulate in the board directory; two posts of the same second whose
+// random suffix collides get a time stamp ahead of the clock, which un-sorts the index for the next post of that
+// second: start every history with an empty board directory.
+var posted bool
+
+func cleanBoardDir() {
+	if !posted {
+		return
+	}
+	posted = false
+	ms, _ := filepath.Glob(filepath.Join(filepath.Dir(dirPath), "M.*"))
+	for _, m := range ms {
+		_ = os.Remove(m)
+	}
+	// the log boards every post is copied to start each history empty and cold
+	for _, lb := range logBoards() {
+		ms, _ := filepath.Glob(filepath.Join(filepath.Dir(lb.dir), "M.*"))
+		for _, m := range ms {
+			_ = os.Remove(m)
+		}
+		_ = os.Remove(lb.dir)
+		cache.Shm.Shm.Total[lb.bid-1] = 0
+	}
+}
+
+type logBoard struct {
+	name string
+	bid  ptttype.Bid
+	dir  string
+}
+
+var logBoardList []logBoard
+
+// logBoards: the boards a post is copied to (doCrosspost / crossPostWriteFile), as far as the fixture has them.
+func logBoards() []logBoard {
+	if logBoardList != nil {
+		return logBoardList
+	}
+	logBoardList = []logBoard{}
+	for _, id := range []*ptttype.BoardID_t{ptttype.BN_ALLPOST, ptttype.BN_NEWIDPOST, ptttype.BN_ALLHIDPOST, ptttype.BN_UNANONYMOUS} {
+		bid, err := cache.GetBid(id)
+		if err != nil || bid <= 0 {
+			continue
+		}
+		n := string(cstr(id[:]))
+		logBoardList = append(logBoardList, logBoard{n, bid, env.Path("boards", n[:1], n, ".DIR")})
+	}
+	return logBoardList
+}
+
+type logState struct {
+	name            string
+	records, cached int
+}
+
+func logStates() []logState {
+	var r []logState
+	for _, lb := range logBoards() {
+		r = append(r, logState{lb.name, cmsys.GetNumRecords(lb.dir, ptttype.FILE_HEADER_RAW_SZ), int(cache.GetBTotal(lb.bid))})
+	}
+	return r
+}
+
+func allpostText() string {
+	for _, st := range logStates() {
+		if st.name == "ALLPOST" {
+			return fmt.Sprintf("%d:%d", st.records, st.cached)
+		}
+	}
+	return "none"
+}
+
 func writeIndex(names [][]byte) {
+	cleanBoardDir()
 	f, err := os.Create(dirPath)
 	if err != nil {
 		panic(err)
@@ -80,6 +154,7 @@ func writeIndex(names [][]byte) {
 	f.Close()
 	cur = names
 	setCached(len(names))
+	synced = true
 }
 
 type sliceWriter struct{ buf []byte }
@@ -87,6 +162,80 @@ type sliceWriter struct{ buf []byte }
 func (s *sliceWriter) Write(p []byte) (int, error) { s.buf = append(s.buf, p...); return len(p), nil }
 
 func setCached(n int) { cache.Shm.Shm.Total[theBid-1] = int32(n) }
+func getCached() int  { return int(cache.Shm.Shm.Total[theBid-1]) }
+
+const useCurrent = -1 << 30
+
+// synced: the history so far obliges the cached total to equal the record count (set by idx and by a post,
+// cleared by a record appended behind the cache's back or a cache value set by hand).
+var synced = true
+
+func posOfName(name string) int {
+	for i, n := range cur {
+		if string(cstr(n)) == name {
+			return i + 1
+		}
+	}
+	return -1
+}
+
+// reloadIndex re-reads the names of all records of the .DIR file.
+func reloadIndex() {
+	b, err := os.ReadFile(dirPath)
+	if err != nil {
+		panic(err)
+	}
+	cur = nil
+	for off := 0; off+128 <= len(b); off += 128 {
+		cur = append(cur, append([]byte{}, cstr(b[off:off+28])...))
+	}
+}
+
+func doAppend(name []byte) string {
+	h := &ptttype.FileHeaderRaw{}
+	copy(h.Filename[:], name)
+	copy(h.Owner[:], "SYSOP")
+	copy(h.Title[:], fmt.Sprintf("e%d", len(cur)+1))
+	if _, err := cmsys.AppendRecord(dirPath, h, ptttype.FILE_HEADER_RAW_SZ); err != nil {
+		return canonErr(err)
+	}
+	reloadIndex()
+	return fmt.Sprintf("len=%d total=%d", len(cur), getCached())
+}
+
+func doList() string {
+	_, _, _, _, _ = ptt.LoadGeneralArticles(userRaw, userUID, boardRaw, theBid, 0, 1, true)
+	return fmt.Sprintf("total=%d", getCached())
+}
+
+var postIP = func() *ptttype.IPv4_t { ip := &ptttype.IPv4_t{}; copy(ip[:], "127.0.0.1"); return ip }()
+
+// doPost: the real ptt.NewPost on the fixture board; returns the created name.
+func doPost() (name []byte, out string) {
+	sum, err := ptt.NewPost(userRaw, userUID, boardRaw, theBid, []byte("test"), []byte("c06 post"), [][]byte{[]byte("line")}, postIP, nil)
+	posted = true
+	if err != nil {
+		return nil, canonErr(err)
+	}
+	reloadIndex()
+	return append([]byte{}, cstr(sum.Filename[:])...), fmt.Sprintf("len=%d total=%d allpost=%s", len(cur), getCached(), allpostText())
+}
+
+func doFindLast(desc bool) string {
+	if len(cur) == 0 {
+		return "err:norecord"
+	}
+	fn := fn28(cur[len(cur)-1])
+	ct, err := fn.CreateTime()
+	if err != nil {
+		return "err:atoi"
+	}
+	idx, err := ptt.FindArticleStartIdx(userRaw, userUID, boardRaw, theBid, ct, fn, desc)
+	if err != nil {
+		return canonErr(err)
+	}
+	return fmt.Sprintf("ok %d", idx)
+}
 
 func canonErr(err error) string {
 	var ne *strconv.NumError
@@ -205,7 +354,9 @@ func capFor() int { return 2*len(cur) + 4 }
 
 // doPwalk: the ptt-level client loop: page, cursor = (CreateTime, Filename) of the extra element, position it.
 func doPwalk(n int, desc bool, total int) walkResult {
-	setCached(total)
+	if total != useCurrent {
+		setCached(total)
+	}
 	var res walkResult
 	start := ptttype.SortIdx(1)
 	if desc {
@@ -253,7 +404,9 @@ func doPwalk(n int, desc bool, total int) walkResult {
 
 // doWalk: the bbs client loop: follow nextIdxStr.
 func doWalk(n int, desc bool, cached int) walkResult {
-	setCached(cached)
+	if cached != useCurrent {
+		setCached(cached)
+	}
 	var res walkResult
 	cursor := ""
 	res.fin = "cap"
@@ -268,7 +421,7 @@ func doWalk(n int, desc bool, cached int) walkResult {
 		for i, s := range sums {
 			p, e := strconv.Atoi(strings.TrimPrefix(string(s.FullTitle), "e"))
 			if e != nil {
-				p = -1
+				p = posOfName(s.Filename) // a record made by the real NewPost has its own title
 			}
 			page[i] = p
 		}
@@ -398,9 +551,14 @@ func do(line string, class string, nontrivial bool) opInfo {
 		n, ok1 := atoiOK(ws[1])
 		desc, ok2 := parseDir(ws[2])
 		tot, ok3 := atoiOK(ws[3])
+		isCur := ws[3] == "cur"
+		if isCur {
+			tot, ok3 = useCurrent, true
+		}
 		if !ok1 || !ok2 || !ok3 {
 			return bad()
 		}
+		before := getCached()
 		var wr walkResult
 		out = hx.CallT(20e9, func() string {
 			if ws[0] == "pwalk" {
@@ -418,8 +576,89 @@ func do(line string, class string, nontrivial bool) opInfo {
 		info.out = out
 		info.walk = wr
 		info.index = run.Op(line, out, label, nontrivial)
-		judgeWalk(info.index, ws[0], n, desc, tot, out, wr)
-		setCached(len(cur))
+		if isCur {
+			// after a post (or on a freshly written index) the cached total has to be the record count:
+			// judged against the full listing of the file
+			jt := -1
+			if synced {
+				jt = len(cur)
+			}
+			judgeWalk(info.index, ws[0], n, desc, jt, out, wr)
+		} else {
+			judgeWalk(info.index, ws[0], n, desc, tot, out, wr)
+			setCached(before)
+		}
+		return info
+	case ws[0] == "setcached" && len(ws) == 2:
+		c, ok := atoiOK(ws[1])
+		if !ok {
+			return bad()
+		}
+		setCached(c)
+		synced = c == len(cur)
+		out = fmt.Sprintf("total=%d", getCached())
+		label = "cache:set"
+	case ws[0] == "reload" && len(ws) == 1:
+		// a restart: cache.ReloadBCache zeroes every cached total (re-counted lazily)
+		out = hx.CallSync(func() string {
+			cache.ReloadBCache()
+			ap := 0
+			for _, st := range logStates() {
+				if st.name == "ALLPOST" {
+					ap = st.cached
+				}
+			}
+			return fmt.Sprintf("total=%d allpost=%d", getCached(), ap)
+		})
+		synced = true // a cold total is re-counted at the next question
+		label = "cache:reload"
+	case ws[0] == "list" && len(ws) == 1:
+		out = hx.CallSync(doList)
+		label = "cache:list"
+	case ws[0] == "append" && len(ws) == 2:
+		name := hx.UnHex(ws[1])
+		out = hx.CallSync(func() string { return doAppend(name) })
+		synced = false
+		label = "cache:append-behind"
+	case ws[0] == "post" && (len(ws) == 1 || len(ws) == 2):
+		// the name is chosen by the real code (time stamp): the op line for the model carries it
+		before := getCached()
+		lenBefore := len(cur)
+		var name []byte
+		out = hx.CallSync(func() string { var o string; name, o = doPost(); return o })
+		line = "post " + hx.Hex(name)
+		if name == nil {
+			line = "post 00"
+		}
+		switch {
+		case before == 0:
+			label = "post:cold-cache"
+		case before == lenBefore:
+			label = "post:exact-cache"
+		case before < lenBefore:
+			label = "post:lagging-cache"
+		default:
+			label = "post:overcounting-cache"
+		}
+		info.out = out
+		info.index = run.Op(line, out, label, true)
+		judgePost(info.index, out)
+		synced = true
+		return info
+	case ws[0] == "findlast" && len(ws) == 2:
+		desc, ok := parseDir(ws[1])
+		if !ok {
+			return bad()
+		}
+		out = hx.Call(func() string { return doFindLast(desc) })
+		res := out
+		if strings.HasPrefix(out, "ok") {
+			res = "ok"
+		}
+		label = "findlast:" + ws[1] + ":" + class + ":" + res
+		info.out = out
+		info.index = run.Op(line, out, label, true)
+		judgeFindLast(info.index, desc, out)
 		return info
 	case ws[0] == "ser" && len(ws) == 2:
 		name := hx.UnHex(ws[1])
